@@ -441,6 +441,17 @@ func runC17s(rc *RunCtx) {
 		at := time.Duration(G.Draw(20)) * unit
 		simrt.GoNamed(fmt.Sprintf("c17s-scraper-%d", s), func() { simrt.Sleep(at); doScrape() })
 	}
+	// In a quarter of the runs the packet listener is closed while associations
+	// may be alive (a reload that drops the address): they end there, and so do
+	// their tunnels.
+	if G.Draw(4) == 0 {
+		at := time.Duration(1+G.Draw(12)) * unit
+		simrt.GoNamed("c17s-udp-listener-close", func() {
+			simrt.Sleep(at)
+			usrv.Stop()
+			simrt.Probe("packet_listener_closed_with_live_associations")
+		})
+	}
 	simrt.Quiesce()
 	if failed {
 		return
